@@ -19,7 +19,7 @@ pub const SPEC: Spec = Spec {
     rule: "a policy tree of depth <= 5 (leaves: pk over a pool of <= 4 keys derived from generated secrets, sha256 over a pool of <= 3 generated preimages, after(n) 1 <= n <= 499999999, older(n: u16), trivial, unsatisfiable(entropy); inner nodes and, or, thresh(k, 1..5 children) with 1 <= k <= n; node budget 4..40; in 3 of 8 cases and/or nodes only get leaves as children, so that compound nodes sit below thresholds only), an Elements environment whose version (2, 1, 3), lock_time (0, a policy value -1/0/+1, random height, 499999999, time-based) and input sequences (one or two inputs; a policy value -1/0/+1, final, 0xfffffffe, 0, disable flag, time flag, junk in unused bits, random) are drawn from the stream (the last third of the stream, at most 64 bytes, drives availability, reordering and environment), one availability bit per distinct key (valid BIP-340 signature of the environment's sighash_all, checked with libsecp256k1) and per distinct hash (its preimage), and a reordering of the children of every and/or/thresh node. Leaf truth = the one-leaf compiled program, finalised with the available witness, runs in the environment (the satisfier's check_after / check_older answers are these observations by construction; the one-leaf policy's satisfy() must agree). Oracle: cmr() = commit().cmr(); satisfy() is Ok exactly when the boolean model (and = both, or = either, thresh = at least k) is true; when Ok the program has the policy's cmr, runs in the environment, prunes to a program with the same cmr that runs; sorted() is idempotent, only reorders children, and is equal for the policy and its reordering; normalized() and sorted() keep the model truth value. Non-trivial: >= 3 leaves, >= 1 or/thresh node, and both a true and a false leaf. Distinct by (policy incl. entropy, availability bits, environment settings, reordering).",
     design_ref: "§6 C16",
     max_len: 400,
-    quick_cases: 15_000,
+    quick_cases: 40_000,
     thorough_cases: 300_000,
     ..Spec::base("C16", "Policies compile, satisfy and canonicalise consistently", case)
 };
